@@ -151,7 +151,7 @@ def _classes(case):
         for kn, sub in tree["kids"]:
             c = build(sub)
             flds.append((kn, c, dataclasses.field(default_factory=c)))
-        cls = dataclasses.make_dataclass(tree["cls"], flds, kw_only=True)
+        cls = dataclasses.make_dataclass(tree["cls"], flds, kw_only=True, module="c16_generated")  # no source to scan
         cls.__doc__ = DOC.format(tree["cls"])
         memo[tree["cls"]] = cls
         return cls
@@ -194,13 +194,15 @@ def build_parser(case, scratch):
     kw = {}
     src = case["source"]
     if src == "config":
-        os.makedirs(scratch, exist_ok=True)
-        path = os.path.join(scratch, f"c16_{os.getpid()}.json")
-        doc = {d: _over_tree(case, d) for d, _, _ in case["dests"]}
-        doc = {d: v for d, v in doc.items() if v}
-        if case["nm"] == "WITHOUT_ROOT" and len(case["dests"]) == 1:
-            doc = doc.get(case["dests"][0][0], {})
-        json.dump(doc, open(path, "w"))
+        path = case.get("_cfg")
+        if path is None:  # stand-alone use of the driver
+            os.makedirs(scratch, exist_ok=True)
+            path = os.path.join(scratch, f"c16_{os.getpid()}.json")
+            doc = {d: _over_tree(case, d) for d, _, _ in case["dests"]}
+            doc = {d: v for d, v in doc.items() if v}
+            if case["nm"] == "WITHOUT_ROOT" and len(case["dests"]) == 1:
+                doc = doc.get(case["dests"][0][0], {})
+            json.dump(doc, open(path, "w"))
         kw["config_path"] = path
     p = ArgumentParser(
         prog="prog",
@@ -243,41 +245,46 @@ def _leaf_values(ns, case):
     return out
 
 
-def _candidate_prefixes(path, upfx):
-    """every prefix the conflict resolver can give to a field below `path` (AUTO adds one word at a time in front of
-    the current prefix, EXPLICIT installs the whole destination)"""
-    out = [upfx]
-    cur = upfx
-    for w in reversed(path):
-        cur = w + "." + cur
-        out.append(cur)
-    out.append(".".join(path) + ".")
-    return out
-
-
 def observe(case, scratch):
     from implutil import outcome_of, reset_simple_parsing_state
 
     reset_simple_parsing_state()
     o = {}
-    # 1. --help through parse_args
+    # 1. --help through parse_args, recording (harness-side hook, the repository is untouched) every list that
+    #    FieldWrapper.option_strings returns with two spellings of the same length: the order in which THIS
+    #    interpreter (this hash seed) enumerates that set of spellings
+    from simple_parsing.wrappers.field_wrapper import FieldWrapper
+
     box = {}
+    rows = []
+    orig = FieldWrapper.__dict__["option_strings"]
+
+    def recording(self):
+        r = orig.fget(self)
+        lens = [len(x) for x in r]
+        if len(set(lens)) != len(lens) and list(r) not in rows:
+            rows.append(list(r))
+        return r
 
     def run_help():
         box["p"] = build_parser(case, scratch)
         box["p"].parse_args(["--help"])
 
-    r = outcome_of(run_help)
+    FieldWrapper.option_strings = property(recording)
+    try:
+        r = outcome_of(run_help)
+    finally:
+        FieldWrapper.option_strings = orig
+    o["oracle"] = rows
     p = box.get("p")
     if r[0] == "exit":
         o["help"] = ["exit", r[1], r[2], r[3]]
     else:
-        o["help"] = r[:2] + ["", ""] if len(r) >= 2 else [r[0], "", "", ""]
+        o["help"] = list(r[:2])
     done = p is not None and getattr(p, "_preprocessing_done", False)
     o["setup_done"] = bool(done)
     # 2. what was registered (the parser's own view after set-up)
     groups = []
-    oracle = []
     if done:
         for w in p._wrappers:
             acts = []
@@ -294,29 +301,6 @@ def observe(case, scratch):
         o["format_help_same"] = None
     o["registered"] = groups
     o["action_dests"] = registered_dests
-    # 3. the hash-order oracle: for every exposed field and every prefix the resolver may install, the order in which
-    #    THIS interpreter enumerates the spellings (only rows in which two spellings have the same length matter)
-    reset_simple_parsing_state()
-
-    def table():
-        q = build_parser(case, scratch)
-        rows = []
-        for w in _flat(q._wrappers):
-            path = w.dest.split(".")
-            for fw in w.fields:
-                saved = fw.prefix
-                for cand in _candidate_prefixes(path, saved):
-                    fw.prefix = cand
-                    row = list(fw.option_strings)
-                    lens = [len(x) for x in row]
-                    if len(set(lens)) != len(lens) and row not in rows:
-                        rows.append(row)
-                fw.prefix = saved
-        return rows
-
-    rt = outcome_of(table)
-    o["oracle"] = rt[1] if rt[0] == "ok" else []
-    o["oracle_failed"] = None if rt[0] == "ok" else rt[:2]
     # 4. cmd=False / init=False fields: never parseable
     hidden = []
     rq = outcome_of(lambda: _required_argv(case, scratch)) if done else ["ok", []]
@@ -399,7 +383,6 @@ def _required_argv(case, scratch):
         return []
     parser = build_parser(case, scratch)
     parser._preprocessing(args=[])
-    reset_simple_parsing_state()
     argv = []
     byd = {fw.dest: fw for w in parser._wrappers for fw in w.fields}
     for path, tree in walk(case):
@@ -407,6 +390,7 @@ def _required_argv(case, scratch):
             if exposed(f) and f["default"][0] == "req":
                 fw = byd[".".join(path + [f["name"]])]
                 argv += [sorted(fw.option_strings)[0], "5"]
+    reset_simple_parsing_state()
     return argv
 
 
